@@ -252,6 +252,17 @@ pub fn nt_c03(case: &RCase, log: &RunLog, m: &Modelled) -> bool {
 
 pub fn check_c04(case: &RCase, log: &RunLog) -> Vec<Violation> {
     let mut out = vec![];
+    // "lets the other side make progress": a future whose gate was opened (and whose waker was
+    // called) must have been polled again before the runner goes quiet.
+    if let Some(u) = &log.unresumed {
+        out.push(v(
+            "C04/released-future-not-resumed",
+            format!(
+                "at quiescent point #{} the runner went quiet (no event, no wake-up) although the futures waiting on {:?} had been woken: they were never polled ({} attempts in flight, delayed retries outstanding: {:?})",
+                u.round, u.labels, u.in_flight, u.delayed
+            ),
+        ));
+    }
     if log.end != RunEnd::Completed {
         return out; // reported by check_end
     }
@@ -309,6 +320,17 @@ pub fn fail_fast_tripped(case: &RCase, m: &Modelled, log: &RunLog) -> bool {
 
 pub fn check_c05(case: &RCase, log: &RunLog, m: &Modelled) -> Vec<Violation> {
     let mut out = vec![];
+    // "other scenarios keep running meanwhile": while a delayed retry is outstanding, a woken
+    // callback of another attempt must be resumed before the runner goes quiet.
+    if let Some(u) = log.unresumed.as_ref().filter(|u| !u.delayed.is_empty() && u.labels.iter().any(|l| l.starts_with("cb:"))) {
+        out.push(v(
+            "C05/stalled-during-retry-delay",
+            format!(
+                "while the retry delay of {:?} was outstanding the runner went quiet at quiescent point #{} without resuming the woken callbacks {:?}",
+                u.delayed, u.round, u.labels
+            ),
+        ));
+    }
     if log.end != RunEnd::Completed {
         return out;
     }
